@@ -149,7 +149,7 @@ def zero_axis_cases():
     # ... and empty arrays whose other axes are as long as usize allows: their strides saturate (F22), and the start of an axis
     # view, `index * stride`, must not be computed in a way that overflows (F27) - the view exists and is empty
     M = 2**64 - 1
-    for sh in ([0, 3, M], [0, 3, M, M], [3, 0, M, M], [2, 0, M, 3], [0, M], [0, 2, 2**63], [0, 2**32, 2**32], [1, 0, 4, M, 2], [0, 5, 2**62, 4]):
+    for sh in ([0, 3, M], [0, 3, M, M], [3, 0, M, M], [2, 0, M, 3], [0, M], [0, 2, 2**63], [0, 2**32, 2**32], [1, 0, 4, M, 2], [0, 5, 2**62, 4], [1, M, 0], [M, 0], [2**63, 0, 2], [1, 1, M, 0, 7]):
         d = len(sh)
         cs.append("indices %s 2" % fmt(sh))
         cs.append("get %s %s" % (fmt(sh), fmt([0] * d)))
